@@ -3,6 +3,7 @@
 //! c10 (frame codec), c09 (token bucket / RateLimited).
 use vh::io::Args;
 
+mod c10;
 mod c12;
 mod c16;
 mod c43;
@@ -10,6 +11,7 @@ mod c43;
 fn main() {
     let args = Args::parse();
     match args.sub.as_str() {
+        "c10" => c10::run(&args),
         "c12" => c12::run(&args),
         "c16" => c16::run(&args),
         "c43" => c43::run(&args),
